@@ -466,7 +466,8 @@ namespace Givaro {
     (const size_t sz, Array r, constArray a, constArray b) const
     {
         for ( size_t i=sz ; i-- ; ) {
-            _GIVARO_GFQ_ADD(r[i], a[i], b[i], GFqDom<Any>::_qm1, GFqDom<Any>::_plus1) ;
+            const Rep bi = b[i]; // r may be b (the macro reads b after writing its result)
+            _GIVARO_GFQ_ADD(r[i], a[i], bi, GFqDom<Any>::_qm1, GFqDom<Any>::_plus1) ;
         }
     }
 
@@ -484,7 +485,8 @@ namespace Givaro {
     (const size_t sz, Array r, constArray a, constArray b) const
     {
         for ( size_t i=sz ; i-- ; ) {
-            _GIVARO_GFQ_SUB(r[i], a[i], b[i], GFqDom<Any>::mOne, GFqDom<Any>::_qm1, GFqDom<Any>::_plus1) ;
+            const Rep ai = a[i]; // r may be a (the macro reads a after writing its result)
+            _GIVARO_GFQ_SUB(r[i], ai, b[i], GFqDom<Any>::mOne, GFqDom<Any>::_qm1, GFqDom<Any>::_plus1) ;
         }
     }
 
@@ -493,7 +495,8 @@ namespace Givaro {
     (const size_t sz, Array r, constArray a, const Rep b) const
     {
         for ( size_t i=sz ; i-- ; ) {
-            _GIVARO_GFQ_SUB(r[i], a[i], b, GFqDom<Any>::mOne, GFqDom<Any>::_qm1, GFqDom<Any>::_plus1) ;
+            const Rep ai = a[i]; // r may be a
+            _GIVARO_GFQ_SUB(r[i], ai, b, GFqDom<Any>::mOne, GFqDom<Any>::_qm1, GFqDom<Any>::_plus1) ;
         }
     }
 
@@ -520,7 +523,8 @@ namespace Givaro {
     (const size_t sz, Array r, const Rep a, constArray x, constArray y) const
     {
         for ( size_t i=sz ; i-- ; ) {
-            _GIVARO_GFQ_MULADD(r[i], a, x[i], y[i], GFqDom<Any>::_qm1, GFqDom<Any>::_plus1) ;
+            const Rep yi = y[i]; // r may be y (the macro reads y after writing its result)
+            _GIVARO_GFQ_MULADD(r[i], a, x[i], yi, GFqDom<Any>::_qm1, GFqDom<Any>::_plus1) ;
         }
     }
 
@@ -549,8 +553,9 @@ namespace Givaro {
     (const size_t sz, Array r, const Rep a, constArray x, constArray y) const
     {
         for ( size_t i=sz ; i-- ; ) {
+            const Rep yi = y[i]; // r may be y
             _GIVARO_GFQ_MUL(r[i], a, x[i], GFqDom<Any>::_qm1) ;
-            _GIVARO_GFQ_AUTOSUB(r[i], y[i], GFqDom<Any>::mOne, GFqDom<Any>::_qm1, GFqDom<Any>::_plus1) ;
+            _GIVARO_GFQ_AUTOSUB(r[i], yi, GFqDom<Any>::mOne, GFqDom<Any>::_qm1, GFqDom<Any>::_plus1) ;
         }
     }
 
